@@ -11,8 +11,6 @@
 use std::collections::{BTreeMap, BTreeSet};
 use vharness::*;
 
-const SIG: &str = "C33/alter-column-catalog-not-updated";
-const SIG_CASE: &str = "C33/case-variant-table-shares-index";
 
 #[derive(Clone, Debug)]
 enum St {
@@ -172,10 +170,10 @@ fn run_case(stmts: &[St], model: &mut model::Model, rep: &mut Report, label: &st
         let after = observe(&db);
         let tname = st.table().unwrap_or("");
         let fail = |rep: &mut Report, what: &str, detail: String, table: &str, altered: &BTreeSet<String>| {
-            // narrow class of the recorded finding: the check concerns a table on which an
-            // ALTER TABLE ADD/DROP COLUMN succeeded earlier in this history
-            let sig = if altered.contains(table) { Some(SIG) } else { None };
-            rep.fail(FailKind::Oracle, sig, what, &format!("{}-- {}\n", script(stmts, k + 1), detail));
+            // (ALTER TABLE ADD/DROP COLUMN used to leave the catalog behind — repaired by
+            // ecda3d9a; no failure class is excused any more)
+            let _ = (table, altered);
+            rep.fail(FailKind::Oracle, None, what, &format!("{}-- {}\n", script(stmts, k + 1), detail));
         };
         if out.is_panic() {
             fail(rep, "engine panicked", out.brief(), tname, &altered);
@@ -275,13 +273,7 @@ fn run_case(stmts: &[St], model: &mut model::Model, rep: &mut Report, label: &st
                         let q = db.exec(&format!("SELECT * FROM {} WHERE {} = {}", sp, c, v));
                         let want: Vec<&String> = rows.iter().filter(|r| r.trim_matches(|ch| ch == '(' || ch == ')').split(' ').nth(ci) == Some(&format!("I{}", v))).collect();
                         let got = q.rows().map(|r| r.len());
-                        // narrow class of the second recorded finding: another listed table whose
-                        // name differs from this one only by letter case owns an index
-                        let twin = after.reg.values().any(|(t2, _)| t2 != t && t2.eq_ignore_ascii_case(t));
-                        if got != Some(want.len()) && twin && !altered.contains(t) {
-                            rep.fail(FailKind::Oracle, Some(SIG_CASE), "an equality query uses the index of a table whose name differs only by case", &format!("{}-- SELECT * FROM {} WHERE {} = {} => {} ; stored rows {:?}\n", script(stmts, k + 1), sp, c, v, q.brief(), rows));
-                            stop = true;
-                        } else if got != Some(want.len()) {
+                        if got != Some(want.len()) {
                             fail(rep, "an equality query on a listed table disagrees with the stored rows", format!("SELECT * FROM {} WHERE {} = {} => {} ; stored rows {:?}", sp, c, v, q.brief(), rows), t, &altered);
                             stop = true;
                         }
@@ -395,9 +387,9 @@ fn probes() -> Vec<(&'static str, Vec<St>)> {
         ("drop-recreate", vec![St::CreateTable(0, ab.clone()), St::CreateIndex("qi".into(), 0, vec!["b"]), St::Insert(0, vec![1, 1]), St::DropTable(1), St::CreateTable(1, abc.clone()), St::Insert(0, vec![1, 2, 3]), St::CreateIndex("qi".into(), 0, vec!["c"]), St::DropIndex("qi".into()), St::DropIndex("qi".into())]),
         ("case-variants", vec![St::CreateTable(2, ab.clone()), St::CreateTable(1, ab.clone()), St::CreateTable(0, ab.clone()), St::Insert(0, vec![2, 2]), St::CreateIndex("i1".into(), 2, vec!["b"]), St::CreateIndex("i2".into(), 0, vec!["b"]), St::DropTable(2), St::Insert(1, vec![3, 2]), St::DropTable(0), St::CreateTable(2, abc.clone())]),
         ("index-on-missing", vec![St::CreateIndex("i1".into(), 3, vec!["a"]), St::CreateTable(3, ab.clone()), St::CreateIndex("i1".into(), 3, vec!["z"]), St::CreateIndex("i1".into(), 3, vec!["a"]), St::CreateIndex("i1".into(), 3, vec!["b"]), St::Insert(3, vec![1]), St::Insert(3, vec![1, 2]), St::Clear(3)]),
-        // the recorded finding, reproduced on every run
-        ("add-column (known finding)", vec![St::CreateTable(0, ab.clone()), St::Insert(0, vec![1, 1]), St::AddColumn(0, "c")]),
-        ("drop-column (known finding)", vec![St::CreateTable(0, abc.clone()), St::CreateIndex("qc".into(), 0, vec!["c"]), St::Insert(0, vec![1, 2, 3]), St::DropColumn(0, "b")]),
+        // repaired defect ecda3d9a, kept as regression probes
+        ("add-column (regression: ecda3d9a)", vec![St::CreateTable(0, ab.clone()), St::Insert(0, vec![1, 1]), St::AddColumn(0, "c")]),
+        ("drop-column (regression: ecda3d9a)", vec![St::CreateTable(0, abc.clone()), St::CreateIndex("qc".into(), 0, vec!["c"]), St::Insert(0, vec![1, 2, 3]), St::DropColumn(0, "b")]),
     ]
 }
 
